@@ -523,4 +523,11 @@ example : EAdmissible (gbEFam true) 3 (ecall (gbEFam true) true () [0x80] true (
     ∧ (ecall (gbEFam true) true () [0x80] true (.full 0)).read = 0 := by
   unfold EAdmissible; decide +kernel
 
+/-- the loop relation is inhabited: x-user-defined, `a` U+00E9 `b`, four-byte destinations: two calls
+(`Unmappable` after `a`, then `b`) -/
+example : ELoop userDefinedEFam () [0x61, 0xE9, 0x62] 2 0 :=
+  ELoop.lastStep (E := userDefinedEFam) () [(0x61, 1), (0xE9, 1), (0x62, 1)] .unlimited 4 1 0 (by decide)
+    (by decide) (by unfold EAdmissible; decide)
+    (ELoop.final (E := userDefinedEFam) () [(0x62, 1)] .unlimited (by decide))
+
 end EncodingRs.Thm.C08Enc
